@@ -757,27 +757,42 @@ struct Stream {
     cfg: MsgCfg,
     /// 0: library default SEIPDv1 mode, 1: Streaming, 2: CheckFirst with a 1 MiB limit
     v1_mode: u8,
+    /// other options set on the same DecryptionOptions value: 0 none; 1 enable_gnupg_aead after
+    /// the read mode; 2 before it; 3 enable_legacy after; 4 both after
+    #[serde(default)]
+    opt_order: u8,
 }
 
 fn stream_cases(tier: Tier) -> Vec<Stream> {
     let base = MsgCfg { source: 1, partial_exp: 0, ..Default::default() };
     let pw = vec![EskSpec::Password(0)];
     let mut v = vec![
-        Stream { name: "literal".into(), cfg: base.clone(), v1_mode: 0 },
-        Stream { name: "literal, 64 KiB partial chunks".into(), cfg: MsgCfg { partial_exp: 16, ..base.clone() }, v1_mode: 0 },
-        Stream { name: "zlib".into(), cfg: MsgCfg { compression: 2, ..base.clone() }, v1_mode: 0 },
-        Stream { name: "signed (one-pass)".into(), cfg: MsgCfg { signers: vec![(KeyKind::Ed25519V4, 0)], ..base.clone() }, v1_mode: 0 },
-        Stream { name: "SEIPDv2 AES-128 OCB 64 KiB chunks".into(), cfg: MsgCfg { enc: Enc::V2(7, 2, 10), esks: pw.clone(), ..base.clone() }, v1_mode: 0 },
-        Stream { name: "SEIPDv2 AES-256 GCM 64 B chunks".into(), cfg: MsgCfg { enc: Enc::V2(9, 3, 0), esks: pw.clone(), ..base.clone() }, v1_mode: 0 },
-        Stream { name: "SEIPDv1 AES-128, reader in Streaming mode".into(), cfg: MsgCfg { enc: Enc::V1(7), esks: pw.clone(), ..base.clone() }, v1_mode: 1 },
-        Stream { name: "SEIPDv1 AES-128, reader in CheckFirst mode with a 1 MiB limit".into(), cfg: MsgCfg { enc: Enc::V1(7), esks: pw.clone(), ..base.clone() }, v1_mode: 2 },
-        Stream { name: "signed + zlib + SEIPDv2, armored".into(), cfg: MsgCfg { compression: 2, signers: vec![(KeyKind::Ed25519V4, 0)], enc: Enc::V2(7, 2, 6), esks: pw.clone(), armor: true, ..base.clone() }, v1_mode: 0 },
+        Stream { name: "literal".into(), cfg: base.clone(), v1_mode: 0, opt_order: 0 },
+        Stream { name: "literal, 64 KiB partial chunks".into(), cfg: MsgCfg { partial_exp: 16, ..base.clone() }, v1_mode: 0, opt_order: 0 },
+        Stream { name: "zlib".into(), cfg: MsgCfg { compression: 2, ..base.clone() }, v1_mode: 0, opt_order: 0 },
+        Stream { name: "signed (one-pass)".into(), cfg: MsgCfg { signers: vec![(KeyKind::Ed25519V4, 0)], ..base.clone() }, v1_mode: 0, opt_order: 0 },
+        Stream { name: "SEIPDv2 AES-128 OCB 64 KiB chunks".into(), cfg: MsgCfg { enc: Enc::V2(7, 2, 10), esks: pw.clone(), ..base.clone() }, v1_mode: 0, opt_order: 0 },
+        Stream { name: "SEIPDv2 AES-256 GCM 64 B chunks".into(), cfg: MsgCfg { enc: Enc::V2(9, 3, 0), esks: pw.clone(), ..base.clone() }, v1_mode: 0, opt_order: 0 },
+        Stream { name: "SEIPDv1 AES-128, reader in Streaming mode".into(), cfg: MsgCfg { enc: Enc::V1(7), esks: pw.clone(), ..base.clone() }, v1_mode: 1, opt_order: 0 },
+        Stream { name: "SEIPDv1 AES-128, reader in CheckFirst mode with a 1 MiB limit".into(), cfg: MsgCfg { enc: Enc::V1(7), esks: pw.clone(), ..base.clone() }, v1_mode: 2, opt_order: 0 },
+        Stream { name: "signed + zlib + SEIPDv2, armored".into(), cfg: MsgCfg { compression: 2, signers: vec![(KeyKind::Ed25519V4, 0)], enc: Enc::V2(7, 2, 6), esks: pw.clone(), armor: true, ..base.clone() }, v1_mode: 0, opt_order: 0 },
     ];
+    // the read mode must survive whatever other option is set on the same value, in any order
+    for (v1_mode, label) in [(1u8, "Streaming mode"), (2, "CheckFirst with a 1 MiB limit")] {
+        for opt_order in 1..=4u8 {
+            v.push(Stream {
+                name: format!("SEIPDv1 AES-128, reader in {label}, {}", ["", "then enable_gnupg_aead", "after enable_gnupg_aead", "then enable_legacy", "then enable_legacy and enable_gnupg_aead"][opt_order as usize]),
+                cfg: MsgCfg { enc: Enc::V1(7), esks: pw.clone(), ..base.clone() },
+                v1_mode,
+                opt_order,
+            });
+        }
+    }
     if tier == Tier::Thorough {
-        v.push(Stream { name: "deflate".into(), cfg: MsgCfg { compression: 1, ..base.clone() }, v1_mode: 0 });
-        v.push(Stream { name: "bzip2".into(), cfg: MsgCfg { compression: 3, ..base.clone() }, v1_mode: 0 });
-        v.push(Stream { name: "SEIPDv2 AES-128 EAX 4 MiB chunks".into(), cfg: MsgCfg { enc: Enc::V2(7, 1, 16), esks: pw.clone(), ..base.clone() }, v1_mode: 0 });
-        v.push(Stream { name: "two signers, text mode".into(), cfg: MsgCfg { signers: vec![(KeyKind::Ed25519V4, 0), (KeyKind::EcdsaP256V4, 0)], ..base }, v1_mode: 0 });
+        v.push(Stream { name: "deflate".into(), cfg: MsgCfg { compression: 1, ..base.clone() }, v1_mode: 0, opt_order: 0 });
+        v.push(Stream { name: "bzip2".into(), cfg: MsgCfg { compression: 3, ..base.clone() }, v1_mode: 0, opt_order: 0 });
+        v.push(Stream { name: "SEIPDv2 AES-128 EAX 4 MiB chunks".into(), cfg: MsgCfg { enc: Enc::V2(7, 1, 16), esks: pw.clone(), ..base.clone() }, v1_mode: 0, opt_order: 0 });
+        v.push(Stream { name: "two signers, text mode".into(), cfg: MsgCfg { signers: vec![(KeyKind::Ed25519V4, 0), (KeyKind::EcdsaP256V4, 0)], ..base }, v1_mode: 0, opt_order: 0 });
     }
     v
 }
@@ -803,16 +818,25 @@ fn stream_once(c: &Stream, size: usize) -> StreamRun {
     });
     let cfg = c.cfg.clone();
     let mode = c.v1_mode;
+    let opt_order = c.opt_order;
     let reader = std::thread::spawn(move || {
         let (res, u) = measure(|| -> Result<(usize, bool), String> {
             let src = BufReader::with_capacity(8192, r);
             let m = if cfg.armor { Message::from_armor(src).map_err(|e| e.to_string())?.0 } else { Message::from_bytes(src).map_err(|e| e.to_string())? };
             let mut m = if cfg.enc != Enc::None {
-                let opts = pgp::composed::DecryptionOptions::new().set_seipdv1_read_mode(match mode {
+                let read_mode = match mode {
                     1 => Seipdv1ReadMode::Streaming,
                     2 => Seipdv1ReadMode::CheckFirst { max_message_size: 1024 * 1024 },
                     _ => Seipdv1ReadMode::default(),
-                });
+                };
+                let new = pgp::composed::DecryptionOptions::new;
+                let opts = match opt_order {
+                    1 => new().set_seipdv1_read_mode(read_mode).enable_gnupg_aead(),
+                    2 => new().enable_gnupg_aead().set_seipdv1_read_mode(read_mode),
+                    3 => new().set_seipdv1_read_mode(read_mode).enable_legacy(),
+                    4 => new().set_seipdv1_read_mode(read_mode).enable_legacy().enable_gnupg_aead(),
+                    _ => new().set_seipdv1_read_mode(read_mode),
+                };
                 let pw = Password::from(msg::PASSWORDS[0]);
                 let ring = pgp::composed::TheRing { message_password: vec![&pw], decrypt_options: opts, ..Default::default() };
                 m.decrypt_the_ring(ring, true).map_err(|e| e.to_string())?.0
